@@ -198,7 +198,8 @@ example : OpsOk {} { out := ByteArray.empty, dictStart := 0, cap := 4096 }
 theorem lazyxz_newReader_not_eof (cfgCap : Nat) (single : Bool) (inp : ByteArray) :
     LazyXz.newReader cfgCap single inp ≠ .error .eof := by
   intro hn
-  unfold LazyXz.newReader LazyXz.newStreamReader at hn
+  unfold LazyXz.newReader LazyXz.newReaderE LazyXz.newStreamReaderE at hn
+  simp only [Bool.false_eq_true, if_false, LazyXz.ofStatusE_false] at hn
   split at hn
   · cases hn
   · cases hh : Xz.readStreamHeader inp 0 with
